@@ -1,4 +1,5 @@
 import Stbem.Model.SingleLayer
+import Stbem.Gen.Panels
 import Driver.QuadCmd
 import Driver.FormulaCmd
 /- Line protocol for the single-layer model (`sl …`); context lines set the configuration. -/
@@ -76,6 +77,27 @@ def slCmd (st : SLState) (args : List String) : SLState × String :=
     | _, _, _, _ => bad
   | ["sl", "pot", e, t, x, y] => match st.fns, parseElem? e, [t, x, y].mapM parseRat? with
     | some S, some e, some [t, x, y] => (st, showRat (potential S st.gauss st.pieces e t (x, y)))
+    | _, _, _ => bad
+  -- the definitions REGENERATED from src/single_layer.py (Stbem.Gen.Panels); the thresholds are the literals of the source,
+  -- only `len` and `glue` are taken from the `sl cfg` line
+  | ["sl", "genpanels", a, b, c, d] => match [a, b, c, d].mapM parseRat? with
+    | some [a, b, c, d] => match Stbem.Gen.Panels.integrate st.cfg.len st.cfg.glue 12 a b c d with
+      | .ok ps => (st, " ".intercalate (ps.map showPanel))
+      | .error e => (st, "err " ++ e)
+    | _ => bad
+  | ["sl", "genbil", pw, tr, te] => match st.fns, parseElem? tr, parseElem? te with
+    | some S, some tr, some te =>
+      (st, showExcept (Stbem.Gen.Panels.bilform st.cfg.len st.cfg.glue S st.log st.pieces (pw == "1") tr te))
+    | _, _, _ => bad
+  | ["sl", "geneval", e, t, xh, x, y] => match st.fns, parseElem? e, [t, xh, x, y].mapM parseRat? with
+    | some S, some e, some [t, xh, x, y] =>
+      (st, showRat (Stbem.Gen.Panels.evaluate st.cfg.len st.cfg.glue S st.log st.pieces e t xh (x, y)))
+    | _, _, _ => bad
+  | "sl" :: "genmpcol" :: pw :: tr :: tes => match st.fns, parseElem? tr, tes.mapM parseElem? with
+    | some S, some tr, some tes =>
+      (st, match Stbem.Gen.Panels.mpCol st.cfg.len st.cfg.glue S st.log st.pieces (pw == "1") tes tr with
+        | .ok col => showRatList col
+        | .error e => "err " ++ e)
     | _, _, _ => bad
   | _ => bad
 
